@@ -203,6 +203,66 @@ def shortGcN : Nat → Int → List Rec → List Rec
 
 def shortGc (now : Int) (l : List Rec) : List Rec := shortGcN Gen.gcMax now l
 
+/-! ### the memory storage with its two containers
+
+`session_memory_storage` keeps `map_` (hash map: key → {timeout, info, timeout_ptr}) and `timeout_`
+(`std::multimap<time_t, pointer>`, the eviction index); `timeout_ptr` is the index node of the entry.  `MemStore` models
+both; the list model above (`recs` in index order) is its abstraction (`MemRel`, `Props.mem_storage_refines`). -/
+
+structure MemEntry where
+  timeout : Int
+  info : Bytes
+deriving DecidableEq, Repr
+
+structure MemStore where
+  map : List (Bytes × MemEntry)      -- `map_` (order irrelevant: only looked up)
+  index : List (Int × Bytes)         -- `timeout_`: (first, key of `second`), in multimap order
+deriving DecidableEq, Repr
+
+def mfind (k : Bytes) : List (Bytes × MemEntry) → Option MemEntry
+  | [] => none
+  | (k', e) :: rest => if k' = k then some e else mfind k rest
+
+def merase (k : Bytes) : List (Bytes × MemEntry) → List (Bytes × MemEntry)
+  | [] => []
+  | (k', e) :: rest => if k' = k then merase k rest else (k', e) :: merase k rest
+
+/-- `timeout_.erase(p->second.timeout_ptr)`: the node `(t, k)` -/
+def idxErase (t : Int) (k : Bytes) : List (Int × Bytes) → List (Int × Bytes)
+  | [] => []
+  | (t', k') :: rest => if t' = t ∧ k' = k then rest else (t', k') :: idxErase t k rest
+
+/-- `timeout_.insert(pair(to,p))`: behind every node with a key `≤ to` -/
+def idxInsert (t : Int) (k : Bytes) : List (Int × Bytes) → List (Int × Bytes)
+  | [] => [(t, k)]
+  | (t', k') :: rest => if t' ≤ t then (t', k') :: idxInsert t k rest else (t, k) :: (t', k') :: rest
+
+/-- `short_gc`: walk the index from its begin; erase the map entry the node points to, and the node -/
+def memShortGcN : Nat → Int → MemStore → MemStore
+  | 0, _, ms => ms
+  | n + 1, now, ms =>
+    match ms.index with
+    | [] => ms
+    | (t, k) :: rest => if Gen.memGcExpired t now then memShortGcN n now ⟨merase k ms.map, rest⟩ else ms
+
+def memShortGc (now : Int) (ms : MemStore) : MemStore := memShortGcN Gen.gcMax now ms
+
+def MemStore.save (now : Int) (key : Bytes) (to : Int) (value : Bytes) (ms : MemStore) : MemStore :=
+  memShortGc now
+    (match mfind key ms.map with
+     | none => ⟨ms.map ++ [(key, ⟨to, value⟩)], idxInsert to key ms.index⟩
+     | some e => ⟨(key, ⟨to, value⟩) :: merase key ms.map, idxInsert to key (idxErase e.timeout key ms.index)⟩)
+
+def MemStore.load (now : Int) (key : Bytes) (ms : MemStore) : Option (Int × Bytes) :=
+  match mfind key ms.map with
+  | none => none
+  | some e => if Gen.memExpired e.timeout now then none else some (e.timeout, e.info)
+
+def MemStore.remove (now : Int) (key : Bytes) (ms : MemStore) : MemStore :=
+  match mfind key ms.map with
+  | none => ms
+  | some e => memShortGc now ⟨merase key ms.map, idxErase e.timeout key ms.index⟩
+
 def Store.save (k : Kind) (now : Int) (sid : Bytes) (to : Int) (d : Bytes) (st : Store) : Store :=
   match k with
   | .memory => { recs := shortGc now (insByTimeout ⟨sid, to, d⟩ (eraseSid sid st.recs)), log := (.save, sid) :: st.log }
